@@ -378,25 +378,35 @@ func genCacheCase(g *vlib.Rng) *Case {
 
 // ------------------------------------------------------------ delSig
 
-// delSigCase: script.delSig is not exported; it is exercised through VerifyTxScript in e2e.go. Here the
-// MODEL's delSig is compared with the reference FindAndDelete (tie of the model to the specification
-// on the range where they are claimed equal: signatures shorter than 76 bytes, decodable scripts).
-func delSigCase(g *vlib.Rng, n int) {
-	sig := g.Bytes(g.Intn(76))
-	if g.Chance(1, 12) {
-		sig = g.Bytes(76 + g.Intn(200))
-	}
-	push := refPush(sig)
-	var s []byte
-	for i := 0; i < g.Intn(6); i++ {
-		switch g.Intn(4) {
-		case 0, 1:
-			s = append(s, push...)
-		case 2:
-			s = append(s, genScript(g)...)
-		case 3:
-			s = append(append(s, byte(len(sig))), sig...) // the prefix gocoin looks for
+// delSig: the real script.delSig (through the verif hook script.VerifDelSig) against the reference
+// FindAndDelete (the property: "signature removal") and against the Lean model's delSig (the tie),
+// and the Lean Spec.findAndDelete against the Go reference.
+var delSigEdges = []int{0, 1, 74, 75, 76, 77, 254, 255, 256, 257}
+
+// realDelSig: script.delSig prints on a decode error; keep the harness's stdout clean.
+func realDelSig(where, sig []byte) (res []byte, cnt int, panicked bool) {
+	defer func() {
+		if recover() != nil {
+			panicked = true
 		}
+	}()
+	old := os.Stdout
+	if devnull != nil {
+		os.Stdout = devnull
+	}
+	defer func() { os.Stdout = old }()
+	res, cnt = script.VerifDelSig(where, sig)
+	return
+}
+
+var devnull, _ = os.OpenFile(os.DevNull, os.O_WRONLY, 0)
+
+func delSigOne(s, sig []byte, label string) {
+	doc := map[string]string{"delsig_script": hx(s), "delsig_sig": hx(sig)}
+	rres, rcnt, rpanic := realDelSig(s, sig)
+	real := fmt.Sprintf("ok %s %d", vlib.Hex(rres), rcnt)
+	if rpanic {
+		real = "panic"
 	}
 	rep := o.MustAsk(fmt.Sprintf("delsig %s %s", vlib.Hex(s), vlib.Hex(sig)))
 	res, cnt, ok := refFindAndDelete(s, sig)
@@ -406,20 +416,103 @@ func delSigCase(g *vlib.Rng, n int) {
 		exp = fmt.Sprintf("ok %s %d", vlib.Hex(res), cnt)
 	}
 	if srep != exp {
-		r.TieFail("spec-findanddelete", "Lean Spec.findAndDelete and the Go reference disagree", map[string]string{"script": hx(s), "sig": hx(sig)})
+		r.TieFail("spec-findanddelete", "Lean Spec.findAndDelete and the Go reference disagree", doc)
 	}
-	class := "long-sig"
-	if len(sig) < 76 {
-		class = "short-sig"
-		if ok && rep != exp {
-			r.TieFail("model-delsig", "Model.delSig differs from FindAndDelete for a signature shorter than 76 bytes", map[string]string{"script": hx(s), "sig": hx(sig), "model": rep, "ref": exp})
-		} else {
-			r.TieOK()
+	class := "sig<76"
+	switch {
+	case len(sig) > 0xffff:
+		class = "sig>=65536(PUSHDATA4)"
+	case len(sig) > 0xff:
+		class = "sig=256..65535(PUSHDATA2)"
+	case len(sig) >= 76:
+		class = "sig=76..255(PUSHDATA1)"
+	}
+	if !ok {
+		class += ",undecodable-script"
+	} else if cnt > 0 {
+		class += ",removed"
+	}
+	key := ""
+	if ok && cnt > 0 {
+		key = "delsig/" + vlib.ShortHash(append(append([]byte{}, s...), sig...))
+	}
+	r.Eval("delsig:"+class, key)
+	// the property on the real code: signature removal = FindAndDelete(script, CScript() << sig)
+	if ok && real != exp {
+		doc["real"], doc["reference"] = real, exp
+		r.PropFail("delsig-findanddelete", fmt.Sprintf("script.delSig differs from FindAndDelete for a %d-byte signature (%s): removed %d operation(s), the reference removes %d", len(sig), label, rcnt, cnt), doc)
+	}
+	// model = code, decodable or not
+	if rep != real {
+		doc["real"], doc["model"] = real, rep
+		r.TieFail("model-delsig", fmt.Sprintf("Model.delSig differs from script.delSig for a %d-byte signature (%s)", len(sig), label), doc)
+	} else {
+		r.TieOK()
+	}
+}
+
+func delSigCorpus() {
+	g := vlib.NewRng(0xde15)
+	edges := append([]int{}, delSigEdges...)
+	edges = append(edges, 520, 521, 65535, 65536)
+	for _, n := range edges {
+		sig := g.Bytes(n)
+		push := refPush(sig)
+		// the canonical push between two operations, twice, and the look-alikes that must stay
+		delSigOne(cat([]byte{0x51}, push, []byte{0xac}), sig, "canonical push")
+		delSigOne(cat(push, push, []byte{0xab}, push), sig, "three canonical pushes")
+		if n < 0x10000 {
+			delSigOne(cat([]byte{0x4e}, u32(uint32(n)), sig, []byte{0xac}), sig, "PUSHDATA4 form of the same data") // non-canonical unless n > 0xffff
+			delSigOne(cat([]byte{0x4d, byte(n), byte(n >> 8)}, sig, []byte{0xac}), sig, "PUSHDATA2 form of the same data")
 		}
-	} else if ok && rep != exp {
-		r.Hit("delsig:long-signature-not-deleted(model)")
+		if n < 0x100 {
+			delSigOne(cat([]byte{0x4c, byte(n)}, sig, []byte{0xac}), sig, "PUSHDATA1 form of the same data")
+		}
+		if n >= 1 && n < 0x4c {
+			delSigOne(cat([]byte{byte(n)}, sig, []byte{0xac}), sig, "direct push")
+		}
+		if n >= 0xfd && n < 0x10000 {
+			// the CompactSize prefix (fd lo hi ‖ sig) the code before fix acaf95d6 looked for: opcode 0xfd is one operation
+			delSigOne(cat([]byte{0xfd, byte(n), byte(n >> 8)}, sig), sig, "CompactSize-prefixed look-alike")
+		}
+		// the push as DATA of a longer push: not an operation of the script
+		if n < 400 {
+			delSigOne(cat(refPush(cat([]byte{0x51}, push)), push), sig, "push inside the data of another push")
+		}
+		// truncated: the script ends inside the signature push
+		delSigOne(cat([]byte{0x51}, push[:len(push)/2+1]), sig, "script ends inside the push")
 	}
-	r.Eval("delsig:"+class, "")
+}
+
+func delSigCase(g *vlib.Rng, n int) {
+	var sig []byte
+	switch g.Intn(12) {
+	case 0:
+		sig = g.Bytes(76 + g.Intn(200))
+	case 1:
+		sig = g.Bytes(delSigEdges[g.Intn(len(delSigEdges))])
+	case 2:
+		sig = g.Bytes(256 + g.Intn(300))
+	default:
+		sig = g.Bytes(g.Intn(76))
+	}
+	push := refPush(sig)
+	var s []byte
+	for i := 0; i < g.Intn(6); i++ {
+		switch g.Intn(6) {
+		case 0, 1:
+			s = append(s, push...)
+		case 2:
+			s = append(s, genScript(g)...)
+		case 3:
+			s = append(append(s, byte(len(sig))), sig...) // length byte + data: a push only below 76 bytes
+		case 4:
+			s = append(append(s, cs(uint64(len(sig)))...), sig...) // CompactSize + data
+		case 5:
+			s = append(append(s, 0x4c, byte(len(sig))), sig...) // PUSHDATA1 form (canonical only for 76..255)
+		}
+	}
+	delSigOne(s, sig, "random")
 }
 
 var _ = script.VER_P2SH
